@@ -431,4 +431,28 @@ theorem partition_uValue_finite (F : Fns) (w : Wall) (m : Model) (c : WallCons) 
           · exact key nx hnxm
           · exact key sp hspm
 
+/-! ## non-vacuity: a concrete buried room on which the hypotheses of `ground_uValue_finite` hold -/
+
+def exDb : ConsDb :=
+  { wallcons := [{ id := "c", absorptance := 0.6, layers := [{ material := "m1", e := 0.2 }] }],
+    materials := [{ id := "m1", properties := .detailed 1 1000 1000 none }] }
+def exSlab : Wall :=
+  { id := "f", bounds := .ground, cons := "c", space := "s",
+    geometry := { tilt := 180, azimuth := 0, polygon := [⟨0, 0⟩, ⟨4, 0⟩, ⟨4, 5⟩, ⟨0, 5⟩] } }
+def exSide : Wall :=
+  { id := "w", bounds := .ground, cons := "c", space := "s",
+    geometry := { tilt := 90, azimuth := 0, polygon := [⟨0, 0⟩, ⟨4, 0⟩, ⟨4, 3⟩, ⟨0, 3⟩] } }
+def exModel : Model :=
+  { Model.dflt with cons := exDb, spaces := [{ id := "s", height := 3, z := -2 }], walls := [exSlab, exSide] }
+
+example : ((exSide.uValue Fns.approx exModel).map (·.nf), (exSlab.uValue Fns.approx exModel).map (·.nf)) = (some false, some false) := by
+  decide +kernel
+
+example : (∀ x ∈ exModel.walls, 0 < x.area) ∧ 0 ≤ exModel.info.dPerimInsulation ∧ 0 ≤ exModel.info.rnPerimInsulation ∧
+    0 < Fns.approx.r2 (uExteriorRaw exSide.tiltC (1 / 5)) := by
+  refine ⟨?_, by decide +kernel, by decide +kernel, by decide +kernel⟩
+  intro x hx
+  simp only [exModel, List.mem_cons, List.mem_nil_iff, or_false] at hx
+  rcases hx with rfl | rfl <;> decide +kernel
+
 end Cte.C14
